@@ -126,10 +126,13 @@ JudgeValue(e, o) ==
         f4 == IF ~e.reparse_ok THEN <<"C05">> ELSE <<>>
         f5 == IF ~e.ext_reparse_ok THEN <<"C05", "C17">> ELSE <<>>
         f6 == IF ~e.parts_ok THEN <<"C17">> ELSE <<>>
-        all == f1 \o f2 \o f3 \o f4 \o f5 \o f6
+        (* equal canonical text but unequal / differently hashed / not Equal; == with a foreign &str *)
+        f7 == IF ~e.same_text_equal \/ e.foreign_str_eq THEN <<"C12">> ELSE <<>>
+        all == f1 \o f2 \o f3 \o f4 \o f5 \o f6 \o f7
         why == IF f1 # <<>> THEN "value-drifted" ELSE IF f2 # <<>> THEN "value-ill-formed"
                ELSE IF f3 # <<>> THEN "value-text" ELSE IF f4 # <<>> THEN "value-does-not-reparse"
-               ELSE IF f5 # <<>> THEN "value-extmap-does-not-reparse" ELSE "value-parts-roundtrip"
+               ELSE IF f5 # <<>> THEN "value-extmap-does-not-reparse" ELSE IF f6 # <<>> THEN "value-parts-roundtrip"
+               ELSE "value-eq-hash-or-str-comparison"
     IN IF all = <<>> THEN Good(o) ELSE Bad(why, all, v)
 
 (* comparison of two projected values                                        *)
